@@ -12,9 +12,11 @@ import (
 	"strings"
 
 	sdk "github.com/cosmos/cosmos-sdk/types"
+	transfertypes "github.com/cosmos/ibc-go/v8/modules/apps/transfer/types"
 
 	fxtypes "github.com/functionx/fx-core/v8/types"
 	crosschaintypes "github.com/functionx/fx-core/v8/x/crosschain/types"
+	ibcmwtypes "github.com/functionx/fx-core/v8/x/ibc/middleware/types"
 )
 
 func (h *harness) hostileString() string {
@@ -72,7 +74,65 @@ func (h *harness) strCase(fn, in string, o outcome, nontrivial bool) {
 	}
 }
 
+// stageMemos: IBC packet memos (attacker: any user of a counterparty chain) through the REAL decode + validation path of
+// the middleware, keeper.HandlerIbcCall = cdc.UnmarshalInterfaceJSON(memo) -> MemoPacket.ValidateBasic -> HandlerIbcCallEvm.
+// In particular "value" absent / null / "" / non-numeric / negative / huge / a JSON number: the decoder must never hand a
+// nil Int to IbcCallEvmPacket.ValidateBasic (which calls Value.IsNegative() without a nil test) — the hypothesis of
+// C20_decoder_excluded_classes, counted in decoder-fact:memo-nil-int.
+func (h *harness) stageMemos() {
+	to := h.p.ethOK[0]
+	values := []string{"", `,"value":null`, `,"value":""`, `,"value":"abc"`, `,"value":"-1"`, `,"value":"0"`, `,"value":"1"`, `,"value":1`, `,"value":-1`, `,"value":1.5`,
+		`,"value":"1.5"`, `,"value":" 1"`, `,"value":"0x10"`, `,"value":"115792089237316195423570985008687907853269984665640564039457584007913129639935"`,
+		`,"value":"115792089237316195423570985008687907853269984665640564039457584007913129639936"`, `,"value":{}`, `,"value":[]`, `,"value":true`, `,"value":"1e3"`}
+	tos := []string{to, "", strings.ToLower(to), "0x", h.p.tronOK[0]}
+	datas := []string{"", "00", "0", "zz", "0x00"}
+	types := []string{"/fx.ibc.applications.transfer.v1.IbcCallEvmPacket", "/fx.ibc.applications.transfer.v1.MemoPacket", "/cosmos.bank.v1beta1.MsgSend", ""}
+	nilSeen := 0
+	run := func(memo string) {
+		// the decoder fact
+		o := guard(func() error {
+			var mp ibcmwtypes.MemoPacket
+			if err := h.c.App.AppCodec().UnmarshalInterfaceJSON([]byte(memo), &mp); err != nil {
+				return err
+			}
+			if p, ok := mp.(*ibcmwtypes.IbcCallEvmPacket); ok && p.Value.IsNil() {
+				nilSeen++
+			}
+			return mp.ValidateBasic()
+		})
+		h.strCase("IBC memo: UnmarshalInterfaceJSON+ValidateBasic", memo, o, true)
+		// the real middleware entry
+		ctx, _ := h.c.Ctx.CacheContext()
+		data := transfertypes.FungibleTokenPacketData{Denom: "FX", Amount: "1", Sender: "px1sender", Receiver: h.p.accOK[0], Memo: memo}
+		o = guard(func() error { return h.c.App.IBCMiddlewareKeeper.HandlerIbcCall(ctx, "transfer", "channel-0", data) })
+		h.strCase("IBC memo: keeper.HandlerIbcCall", memo, o, true)
+	}
+	for _, v := range values {
+		for _, t := range tos {
+			for _, d := range datas {
+				run(fmt.Sprintf(`{"@type":%q,"to":%q%s,"data":%q}`, types[0], t, v, d))
+			}
+		}
+	}
+	for _, ty := range types[1:] {
+		run(fmt.Sprintf(`{"@type":%q,"to":%q,"data":"00"}`, ty, to))
+	}
+	for _, m := range []string{"", "{}", "null", "[]", `{"@type":1}`, `{"@type":"/fx.ibc.applications.transfer.v1.IbcCallEvmPacket"}`,
+		`{"@type":"/fx.ibc.applications.transfer.v1.IbcCallEvmPacket","to":1}`, `{"@type":"/fx.ibc.applications.transfer.v1.IbcCallEvmPacket","unknown":1}`,
+		`{"@type":"/fx.ibc.applications.transfer.v1.IbcCallEvmPacket","value":"1","value":null,"to":"` + to + `"}`, strings.Repeat("[", 2000), `{"a":` + strings.Repeat(`{"a":`, 500)} {
+		run(m)
+	}
+	for i := 0; i < 100*h.scale; i++ {
+		run(string(randBytes(h.r, h.r.Intn(80))))
+	}
+	h.rep.Count(fmt.Sprintf("decoder-fact:memo-nil-int=%d", nilSeen))
+	if nilSeen > 0 {
+		h.rep.Notes = append(h.rep.Notes, "UnmarshalInterfaceJSON produced an IbcCallEvmPacket with a nil Value: the hypothesis `decodable` of C20_validate_total no longer describes the decoder (any resulting panic is reported by the monitor above)")
+	}
+}
+
 func (h *harness) stageStrings() {
+	h.stageMemos()
 	chains := append(crosschaintypes.GetSupportChains(), "", "nochain", "ETH")
 	n := 1500 * h.scale
 	for i := 0; i < n; i++ {
